@@ -82,6 +82,7 @@ class Runner:
         self.case = case
         self.env = Environment()
         self.lines = []
+        self.notes = []          # oracle-only records (never compared with the model)
         self.slots = {}
         self.labels = {}
         self.keep = []
@@ -157,6 +158,27 @@ class Runner:
                 items = sorted(r.items) if k == 'pstore' else list(r.items)
                 parts.append(f'it[{", ".join(str(i) for i in items)}] pq{len(r.put_queue)} gq{len(r.get_queue)}')
         self.lines.append('S ' + ' | '.join(parts) + f' @{self.now()}')
+
+    def note_heads(self):
+        """oracle-only: for every container/store, can the oldest pending put / get be satisfied right now?"""
+        info = []
+        for (k, cap, _), r in zip(self.case.res, self.res):
+            if k in ('resource', 'priority', 'preemptive'):
+                info.append(None); continue
+            capv = float('inf') if cap is None else cap
+            put_ok = get_ok = False
+            if r.put_queue:
+                h = r.put_queue[0]
+                put_ok = (capv - r.level >= h.amount) if k == 'container' else (len(r.items) < capv)
+            if r.get_queue:
+                if k == 'container':
+                    get_ok = r.level >= r.get_queue[0].amount
+                elif k == 'fstore':
+                    get_ok = any(g.filter(i) for g in r.get_queue for i in r.items)
+                else:
+                    get_ok = len(r.items) > 0
+            info.append((put_ok, get_ok))
+        self.notes.append(('heads', self.env.now, info))
 
     # ---- the interpreter --------------------------------------------------------------------
     def spawn(self, pidx, name):
@@ -266,6 +288,7 @@ class Runner:
                     self.lines.append(f'X {self.fmt_exc(x)} @{self.now()}')
                     break
                 self.snap()
+                self.note_heads()
             self.lines.append(f'F @{self.now()}')
         else:
             for seg in list(self.case.plan) + [('A',)]:
@@ -282,11 +305,16 @@ class Runner:
                         except EmptySchedule:
                             self.lines.append(f'X EmptySchedule  @{self.now()}')
                         continue
-                    if seg[0] == 'T': v = env.run(until=float(seg[1]))
+                    if seg[0] == 'T':
+                        t0 = env.now
+                        v = env.run(until=float(seg[1]))
+                        self.notes.append(('until-time', float(seg[1]), t0, env.now))
                     elif seg[0] == 'E':
                         if seg[1] not in self.slots:
                             self.lines.append('R skip'); continue
-                        v = env.run(until=self.slots[seg[1]])
+                        ev = self.slots[seg[1]]
+                        v = env.run(until=ev)
+                        self.notes.append(('until-event', ev.processed, getattr(ev, '_ok', None), v is ev._value or v == ev._value))
                     else: v = env.run()
                     self.lines.append(f'R {self.fmt_val(v)} @{self.now()}')
                 except BaseException as x:
